@@ -10,7 +10,7 @@ PRODS = parser.productions
 
 TEXTS = {
     "TERM": ["a", "b", "c", "d", "e", "f", "g"], "PHRASE": ['"p q"', '"r"', '"s t"'], "REGEX": ["/x+/", "/y/"],
-    "APPROX": ["~", "~2", "~0.5"], "BOOST": ["^2", "^", "^0.5"], "MINUS": ["-"], "PLUS": ["+"], "COLUMN": [":"],
+    "APPROX": ["~", "~2", "~0.50", "~02"], "BOOST": ["^2.0", "^", "^.5", "^007"], "MINUS": ["-"], "PLUS": ["+"], "COLUMN": [":"],
     "LPAREN": ["("], "RPAREN": [")"], "LBRACKET": ["[", "{"], "RBRACKET": ["]", "}"], "LESSTHAN": ["<", "<="],
     "GREATERTHAN": [">", ">="], "AND_OP": ["AND"], "OR_OP": ["OR"], "NOT": ["NOT"], "TO": ["TO"],
 }
@@ -97,7 +97,7 @@ def render(seq, variant=0, sep=" "):
         else:
             txt = opts[(k + variant) % len(opts)] if t in ("APPROX", "BOOST", "LBRACKET", "RBRACKET", "LESSTHAN", "GREATERTHAN") else opts[0]
         if prev is not None:
-            if sep:
+            if sep and t != "COLUMN":       # no blank before a field colon (known finding KF-D1)
                 out.append(sep)
             elif needs_space(prev, t):
                 out.append(" ")
